@@ -89,6 +89,28 @@ def gen_random(rng, kind):
         if rng.random() < 0.3:
             return [[round(rng.choice([0, 0.25, 0.5, 0.75, 1]), 2) for _ in range(c)] for _ in range(r)]
         return [[rng.randint(0, hi) for _ in range(c)] for _ in range(r)]
+    if kind == 'structured':
+        # products / sums of row and column terms (what credit tables often look like): long runs of adjustment steps
+        n_ = rng.randint(5, 10)
+        r, c = (n_, n_) if rng.random() < 0.6 else (n_, rng.randint(5, 10))
+        form = rng.choice(['prod', 'sumsq', 'ratio', 'rank1', 'sorted'])
+        a_ = [rng.uniform(0.1, 3) for _ in range(r)]
+        b_ = [rng.uniform(0.1, 3) for _ in range(c)]
+        if form == 'prod':
+            return [[(i + 1) * (j + 1) for j in range(c)] for i in range(r)]
+        if form == 'sumsq':
+            return [[(i + j) ** 2 for j in range(c)] for i in range(r)]
+        if form == 'ratio':
+            return [[(i + 1) / float(j + 1) for j in range(c)] for i in range(r)]
+        if form == 'rank1':
+            return [[a_[i] * b_[j] for j in range(c)] for i in range(r)]
+        return [sorted(rng.random() for _ in range(c)) for _ in range(r)]
+    if kind == 'aliased':
+        # the same row OBJECT listed several times ("k identical workers"): still a matrix like any other
+        c = rng.randint(2, 6)
+        rows = [[rng.choice([0, 1, 2, 5, 0.5]) if rng.random() < 0.5 else round(rng.random(), 2) for _ in range(c)] for _ in range(rng.randint(1, 3))]
+        k = rng.randint(2, 6)
+        return [rows[rng.randrange(len(rows))] for _ in range(k)]
     if kind == 'int':
         hi = rng.choice([1, 2, 3, 9, 100])
         return [[rng.randint(0, hi) for _ in range(c)] for _ in range(r)]
@@ -149,7 +171,7 @@ def run(ctx):
                  n44, not ctx.quick)
 
     # --- random classes
-    kinds = ['int', 'float', 'ties', 'grade', 'neartie', 'mixed', 'wide', 'wide', 'tall']
+    kinds = ['int', 'float', 'ties', 'grade', 'neartie', 'mixed', 'wide', 'wide', 'tall', 'structured', 'aliased']
     for i in range(ctx.n(90000, 2250000)):
         kind = kinds[i % len(kinds)]
         M = gen_random(rng, kind)
